@@ -25,18 +25,19 @@ def sh(cmd, **kw):
     return subprocess.run(cmd, shell=True, text=True, capture_output=True, **kw)
 
 
-def do_import(pid, src):
+def do_import(pid, src, offset=0):
     src = Path(src)
     n = 0
     for diff in sorted(src.glob('mut*.diff')):
-        k = re.search(r'mut(\d+)', diff.name).group(1)
+        k0 = re.search(r'mut(\d+)', diff.name).group(1)
+        k = str(int(k0) + offset)
         dst = SEEDED / f'{pid}-m{k}'
         dst.mkdir(parents=True, exist_ok=True)
         shutil.copy(diff, dst / 'patch.diff')
-        demo = src / f'demo{k}.py'
+        demo = src / f'demo{k0}.py'
         if demo.exists():
             shutil.copy(demo, dst / 'demo.py')
-        txt = (src / f'mut{k}.txt').read_text() if (src / f'mut{k}.txt').exists() else ''
+        txt = (src / f'mut{k0}.txt').read_text() if (src / f'mut{k0}.txt').exists() else ''
         meta = dict(property=pid, id=f'{pid}-m{k}', origin='sub-agent given only the property text and a scratch worktree',
                     description=txt.strip(), files=sorted(set(re.findall(r'^\+\+\+ b/(\S+)', diff.read_text(), re.M))),
                     baseline_tests='187 passed with the change applied (reported by the seeding agent)')
@@ -110,7 +111,7 @@ def do_test(pid, names, tier, checks):
 def main():
     a = sys.argv[1:]
     if a[0] == 'import':
-        do_import(a[1], a[2])
+        do_import(a[1], a[2], int(a[3]) if len(a) > 3 else 0)
     elif a[0] == 'test':
         pid = a[1]
         tier, checks, names = 'quick', None, []
